@@ -77,7 +77,7 @@ GOOD = HEADER + zlib.compress(''.join(BASE_LINES).encode())
 def fault(kind: str, data: bytes, res: Dict[str, Any], expect_ctrl: bool, detail: Any, url: str = 'http://h/objects.inv') -> None:
     res['evals'] += 1
     inv, msgs, err = load(data, url)
-    case = {'kind': 'bytes', 'what': kind, 'detail': repr(detail), 'data': data, 'url': url, 'expect_ctrl': expect_ctrl}
+    case = {'kind': 'bytes', 'what': kind, 'detail': list(detail) if isinstance(detail, tuple) else detail, 'data': data, 'url': url, 'expect_ctrl': expect_ctrl}
     if err:
         res['violations'].append(core.violation(f'raises/{err[0]}@{err[1]}/{kind}', f'loading a {kind} inventory ({detail!r}) raises {err[0]} at {err[1]}', case))
         res['nontrivial'].add(core.h(data))
@@ -90,7 +90,8 @@ def fault(kind: str, data: bytes, res: Dict[str, Any], expect_ctrl: bool, detail
         if not (ok1 and ok2):
             why = ''
             if kind == 'payload-byte':
-                why = '/invalid-utf8-byte' if detail[1] == b'\xff' else f'/byte-{detail[1].hex()}'
+                sub = detail[1] if isinstance(detail[1], bytes) else bytes(detail[1])
+                why = '/invalid-utf8-byte' if sub == b'\xff' else f'/byte-{sub.hex()}'
             res['violations'].append(core.violation(f'usable-lines-lost/{kind}{why}', f'{kind} ({detail!r}): untouched control lines no longer resolve (ctrl.one ok={ok1}, ctrl.two ok={ok2}); messages {msgs[:2]}', case))
     if not links and not nerr and data != GOOD and kind not in ('url',):
         res['violations'].append(core.violation(f'unusable-not-reported/{kind}', f'{kind} ({detail!r}): nothing could be used and nothing was reported', case))
